@@ -369,12 +369,51 @@ def main18(tag, outdir):
         open(os.path.join(outdir, aid + ".txt"), "w").write(out)
         print(aid, len(out))
 
+# wave 19: compute-unit optimisations (fast paths, early exits, cached values, skipped recomputation) that are wrong in a corner
+OPT19 = [
+ ("L01", "the swap loop (swap_manager, swap_math compute_swap, update_after_swap)"),
+ ("L02", "the tick-array sequence and the search for the next initialised tick (fixed, dynamic and zeroed arrays, SwapTickSequence, sparse swap loading)"),
+ ("L03", "the Pinocchio liquidity path (increase / decrease / reposition handlers and pinocchio/ported/*)"),
+ ("L04", "fee and reward growth computation (tick_manager, position_manager, whirlpool_manager, update_fees_and_rewards, collect_*)"),
+ ("L05", "the adaptive-fee manager and oracle (fee_rate_manager, state/oracle.rs)"),
+ ("L06", "token helpers: transfer-fee calculation, transfers to / from vaults, memo, token-badge and extension checks (util/v2, util/token.rs)"),
+ ("L07", "position lifecycle handlers and their validation (open / close, bundles, lock, transfer-lock, reset range): account and authority checks"),
+ ("L08", "the two-hop swap handlers and their shared helpers (v1 and v2)"),
+ ("L09", "the Rust core SDK quote and math code (rust-sdk/core)"),
+ ("L10", "the dynamic tick-array codec and the Pinocchio memory-mapped accessors"),
+]
+
+def main19(tag, outdir):
+    os.makedirs(outdir, exist_ok=True)
+    root = os.path.dirname(os.path.dirname(os.path.abspath(__file__)))
+    brief = open(os.path.join(root, "notes/SEED_BRIEF.md")).read().split("\n---\n", 1)[1]
+    props = [json.loads(l) for l in open(os.path.join(root, "properties.jsonl"))]
+    plist = "\n".join(f"* {p['id']} — {p['title']}. {p['statement']}" for p in props)
+    for aid, area in OPT19:
+        d = f"/tmp/{tag}_{aid}"
+        text = ("This time you are not given one property but a KIND OF CHANGE and a place. The repository is expected to satisfy all of the "
+                "following properties (each must hold for every input, history and configuration):\n\n" + plist +
+                "\n\nYour place:\n  - " + area +
+                "\n\nOn Solana every instruction has a compute budget, and programs are routinely optimised: fast paths for the common case, early exits, "
+                "values cached or passed along instead of being recomputed, a loop that stops sooner, an update skipped when 'nothing can have changed', two passes "
+                "merged into one. Write such an OPTIMISATION of your place - one a reviewer would take for a sound saving - that is wrong in a corner: it gives exactly "
+                "the old result in the common case and breaks one of the properties above in a case the author of the optimisation did not think of. "
+                "Pick whichever property your change breaks, and say which one in meta.json (\"property\": \"Cxx\").")
+        out = (brief.replace("{dir}", d).replace("{property}", text).replace("{used}", "(about 300 earlier changes exist; many are one-token slips - a plausible OPTIMISATION with a wrong corner is what is wanted here)")
+               .replace("{steer}", "The change should read as a genuine saving (fewer account reads, fewer multiplications, a shorter loop, an early return), with a comment a reviewer would accept. Say in demo.md which corner it gets wrong and why the common case is unchanged.")
+               .replace("{id}", "Cxx"))
+        out = out.replace("Earlier changes written against this property are listed here", "Earlier changes")
+        open(os.path.join(outdir, aid + ".txt"), "w").write(out)
+        print(aid, len(out))
+
 def main():
     tag, outdir = sys.argv[1], sys.argv[2]
     if tag.startswith("seed17"):
         return main17(tag, outdir)
     if tag.startswith("seed18"):
         return main18(tag, outdir)
+    if tag.startswith("seed19"):
+        return main19(tag, outdir)
     if tag.startswith("seed14") or tag.startswith("seed15") or tag.startswith("seed16"):
         return main14(tag, outdir)
     if tag.startswith("seed13"):
